@@ -73,7 +73,7 @@ try:
     caught = {}
     for i in range(1, 21):
         p = 'C%02d' % i
-        r = subprocess.run([os.path.join(V, 'bin/vlcheck'), '-property', p, '-repo', wt, '-verif', ev], capture_output=True, text=True)
+        r = subprocess.run([os.environ.get('VLCHECK', os.path.join(V, 'bin/vlcheck')), '-property', p, '-repo', wt, '-verif', ev], capture_output=True, text=True)
         if r.returncode == 1:
             rules = sorted(set(re.findall(r'\[' + p + r'\.(\w+)\]', r.stdout)))
             caught[p] = rules
